@@ -33,6 +33,8 @@ type harvest struct {
 	vals  []dbft.PublicKey
 	h1    uint32
 	all   []*netx.Payload
+
+	sigCache map[string]bool // wire form -> witness valid (one worker per harvest)
 }
 
 type hv struct {
@@ -70,6 +72,15 @@ type algResult struct {
 	hashNotCarried     int
 	problems           []caseRec
 	requests, carriers int
+	// cross-view part (ext_algebra_cross_test.go)
+	crossCases, crossCommitCases, crossCVCases, cvOtherReason, origSigs int
+	xviewHarvests                                                       int
+	pending                                                             []pendingViolation // problems of the xview harvest runs themselves
+}
+
+type pendingViolation struct {
+	key string
+	rec caseRec
 }
 
 func sortedWires(ps []dbft.ConsensusPayload[util.Uint256], skip int) [][]byte {
@@ -113,6 +124,12 @@ func algebraOn(hs *harvest, res *algResult) {
 	for _, p := range hs.all {
 		if p.Type == dbft.RecoveryMessageType || p.Type == dbft.RecoveryRequestType {
 			continue
+		}
+		if p.Type == dbft.ChangeViewType {
+			// the compact form carries no reason: only a ChangeView by timeout can be rebuilt with its hash
+			if d, err := decodePayload(hs.magic, hs.srih, p.Bytes); err != nil || d.GetChangeView().Reason() != dbft.CVTimeout {
+				continue
+			}
 		}
 		k := hv{p.Height, p.View}
 		if groups[k] == nil {
@@ -307,16 +324,19 @@ func algebraOn(hs *harvest, res *algResult) {
 func harvests(t *testing.T, r *vk.Run, scs []*scen) []*harvest {
 	var list []*scen
 	for _, sc := range scs {
-		if sc.split {
+		if sc.split && !sc.xview {
 			list = append(list, sc)
 		}
 	}
 	out := make([]*harvest, len(list))
 	run1 := func(i int) {
 		sc := list[i]
-		pol := newSplitPolicy(splitSpec{Prim: sc.prim, View1: true, Mode: "late", L: 1})
+		hsp := splitSpec{Prim: sc.prim, View1: true, Mode: "late", L: 1}
+		fdone := inflightBegin(probeRec{Kind: "split", Scen: sc.Name, Split: &hsp})
+		pol := newSplitPolicy(hsp)
 		cf := newConformer(newConfStats())
 		res := run(t, sc, Sched{Scen: sc.Name}, runOpts{prefix: pol.next, after: cf.check})
+		fdone()
 		if res.End != "done" || len(res.Problems) > 0 || cf.vals == nil {
 			for _, p := range res.Problems {
 				if r == nil {
@@ -342,7 +362,10 @@ func harvests(t *testing.T, r *vk.Run, scs []*scen) []*harvest {
 
 func algebraAll(t *testing.T, r *vk.Run, scs []*scen) (*algResult, int) {
 	hs := harvests(t, r, scs)
-	total := &algResult{outcomes: map[string]int{}}
+	nStd := len(hs)
+	xh, pend := xviewHarvests(t, r, scs)
+	hs = append(hs, xh...)
+	total := &algResult{outcomes: map[string]int{}, pending: pend}
 	var mu sync.Mutex
 	n := 0
 	work := func(i int) {
@@ -351,8 +374,17 @@ func algebraAll(t *testing.T, r *vk.Run, scs []*scen) (*algResult, int) {
 		}
 		res := &algResult{outcomes: map[string]int{}}
 		algebraOn(hs[i], res)
+		algebraCross(hs[i], res)
 		mu.Lock()
 		n++
+		if i >= nStd {
+			total.xviewHarvests++
+		}
+		total.crossCases += res.crossCases
+		total.crossCommitCases += res.crossCommitCases
+		total.crossCVCases += res.crossCVCases
+		total.cvOtherReason += res.cvOtherReason
+		total.origSigs += res.origSigs
 		total.cases += res.cases
 		total.expansions += res.expansions
 		total.hashNotCarried += res.hashNotCarried
@@ -391,9 +423,24 @@ func exploreAlgebra(t *testing.T, r *vk.Run, scs []*scen) map[string]any {
 		seen[k] = true
 		r.Violation("recovery-algebra:"+p.Schedule, p)
 	}
+	// the xview harvest runs themselves: the first failing run per oracle (the xview family reports the rest)
+	for _, pv := range res.pending {
+		if seen["pending|"+pv.rec.Oracle] {
+			continue
+		}
+		seen["pending|"+pv.rec.Oracle] = true
+		r.Violation(pv.key, pv.rec)
+	}
 	return map[string]any{
-		"rule":                        "per split scenario (primary 0..3, without and with StateRootInHeader) the payloads of the run 'first PrepareRequest lost for everybody' (4 ChangeViews in view 0, full rounds in view 1 and at the next height); per (height, view) and per sending validator 0..3: RecoveryMessage built through AddPayload from every subset of the preparations x {no, all} commits x {no, all} change views, every subset of commits, every subset of change views; expanded as built and after serialise + parse; oracle: GetPrepareRequest / GetPrepareResponses / GetCommits / GetChangeViews return exactly the broadcast payloads (wire form: hash, sender, witness), the preparation hash is the request's hash",
-		"harvest_runs":                n,
+		"rule":               "per split scenario (primary 0..3, without and with StateRootInHeader) the payloads of the run 'first PrepareRequest lost for everybody' (4 ChangeViews in view 0, full rounds in view 1 and at the next height); per (height, view) and per sending validator 0..3: RecoveryMessage built through AddPayload from every subset of the preparations x {no, all} commits x {no, all} change views, every subset of commits, every subset of change views; expanded as built and after serialise + parse; oracle: GetPrepareRequest / GetPrepareResponses / GetCommits / GetChangeViews return exactly the broadcast payloads (wire form: hash, sender, witness), the preparation hash is the request's hash",
+		"harvest_runs":       n,
+		"harvest_runs_xview": res.xviewHarvests,
+		"cross_rule":         "per harvest (the 8 above + per split scenario and lone committer A the xview run 'every later-view Commit lost': commits of two or three views at one height) and height: all Commits and all ChangeViews (reason Timeout) of the height by (validator, view); carriers of every view 0..max+1 (below, equal to, above the elements' views) x sending validators {0,3}; every subset of commits x every subset of change views (both {none, all} x every subset when more than 256 pairs), plus {none, all} x {none, all} x all preparations of each view with a request; as built and after serialise + parse; oracle: every element of GetCommits / GetChangeViews / GetPrepareResponses / GetPrepareRequest is a non-nil payload of that kind; Commits and ChangeViews byte-identical to the broadcast ones with a valid signature of the named validator; no element when nothing of the kind was added; preparations byte-identical when the carrier is of their view, else only counted (their compact form has no view)",
+		"cross_cases":        res.crossCases,
+		"cross_expansions_with_commits_of_another_view":      res.crossCommitCases,
+		"cross_expansions_with_change_views_of_another_view": res.crossCVCases,
+		"cross_original_signatures_verified":                 res.origSigs,
+		"change_views_left_out_reason_not_timeout":           res.cvOtherReason,
 		"carriers":                    res.carriers,
 		"cases":                       res.cases,
 		"expansions":                  res.expansions,
